@@ -24,9 +24,9 @@ import WcModel.Model.GlobWalk
   search and validated against Bash in the thorough tier.
 
   Where the spec and the code knowingly differ (the code is tied to the *model*, the model is
-  compared with the spec): a segment regex must accept the *whole* name (`Re.fullmatch`; the
-  code uses `re.match`, D14); `.`/`..` are offered only by directories and a name followed
-  by further segments must be a directory (D17).
+  compared with the spec): `.`/`..` are offered only by directories and a name followed by
+  further segments must be a directory (D17).  A segment regex must accept the *whole* name
+  (`Re.fullmatch`) — the code agrees since the D14 repair (it used `re.match`).
 -/
 namespace WcModel
 
@@ -62,8 +62,9 @@ def segOK (cs : Bool) : PPat → Name → Bool
   | .lit s, n => if cs then n == s else lowerS n == lowerS s
   | .re _ r, n => r.fullmatch n
 
-/-- the same with the code's `re.match` for magic segments (`full = false`): used only by the
-    executable oracle to recognise inputs whose sole difference is D14 -/
+/-- the same with `re.match` (prefix match) for magic segments when `full = false`: what the
+    code did before the D14 repair.  Every oracle evaluates with `full = true` (`segOK`); the
+    parameter remains for diagnosis only (the `<full>` argument of the driver command `denotes`). -/
 def segOKq (cs full : Bool) (p : PPat) (n : Name) : Bool :=
   if full then segOK cs p n else
   match p with
